@@ -37,7 +37,8 @@ CHECKS = {
             "recorded as known findings F7 (constructor accepts run == window) and F8 (binary64 rounding, short strand alone).  "
             "Tied to dsw by a composite pipeline call (filter -> vertices -> graph -> encode -> verdicts).",
             "Coq proof (composition of C03/C04/C11/C12/C13 lemmas) + refutation witnesses + extraction-based correspondence", "5 C02"),
-    "C03": ("Theorems for every order k >= 1, every 0/1 mask and thresholds 1..4: connect_coding_graph returns the vertex-induced "
+    "C03": ("(connect_coding_graph is REGENERATED from the current source on every run as a term of a deep embedding of Python + NumPy and "
+            "proved equal to the model, value and exception: C03_source.)  Theorems for every order k >= 1, every 0/1 mask and thresholds 1..4: connect_coding_graph returns the vertex-induced "
             "sub-graph on the LARGEST closed subset of the mask (greatest fixed point; for t = 1 incl. reachability of a branching "
             "vertex, proved through the cascade invariant), the vertex description denotes exactly the vertices with arcs, and "
             "ValueError is raised exactly when every closed subset is empty; monotonicity and uniqueness follow; the latter-map "
